@@ -474,6 +474,7 @@ pub fn replay(unit: &str, bytes: Option<Vec<Vec<u8>>>) -> i32 {
         "k_c07_well_known" => go!(contract_well_known),
         "k_c07_unknown_arc_names" => go!(contract_well_known_negative),
         "k_c04_add_assign" => go!(crate::intermediate::encoding_rules::per_visible::verif_hook::contract_add_assign),
+        "k_c04_range_accessors" => go!(crate::intermediate::encoding_rules::per_visible::verif_hook::contract_range_accessors),
         "k_c07_hex_to_bools" => go!(crate::lexer::verif_hook_util::contract_hex_to_bools),
         "k_c07_octet_to_bits" => go!(crate::validator::verif_hook_utils::contract_octet_to_bits),
         "k_c07_bits_to_octets" => go!(crate::validator::verif_hook_utils::contract_bits_to_octets),
